@@ -18,6 +18,7 @@ import EasyMl.Lemmas.FallibleExpansion
 import EasyMl.Lemmas.FallibleRange
 import EasyMl.Lemmas.FallibleNamed
 import EasyMl.Lemmas.PartViews
+import EasyMl.Lemmas.FixConservative
 
 namespace EasyMl.C16
 open EasyMl EasyMl.Spec EasyMl.Fallible EasyMl.MatrixView
@@ -746,5 +747,36 @@ theorem std_range_conversions (r : IndexRange) (a b : Nat) :
   · intro hab hb
     have h : a + (b - a) ≤ usizeMax := by omega
     simp only [IndexRange.toStdRangePre, IndexRange.ofStdRange, cadd_ok h, Nat.add_sub_cancel' hab]
+/-! ## 11. The repairs are conservative -/
+
+/-- **The repairs D-04 … D-08 replaced overflow panics and nothing else.**  At each of the six
+    places where the code after the fixes differs from the pinned code — `IndexRange::clip`,
+    the `start + length > end` test of `range_exceeds_bounds`, the mask and the reverse index
+    mapping of the checked getters, `dimensions::elements`, `rows * columns` of
+    `RecordMatrix::from_iter` — the pinned code, for every input, either panicked with an
+    arithmetic overflow or returned exactly what the repaired code returns; hence so do
+    `Tensor::try_from`, the clipping of a list of ranges and the strict bounds test. -/
+theorem fixes_conservative (r : IndexRange) (m e i l : Nat) (ls : List Nat) (a b : Nat)
+    (shape : Shape ν) (n : Nat) (ranges : List IndexRange) (oranges : List (Option IndexRange)) :
+    (Arith.pre.clip r m = .panic .overflow ∨ Arith.pre.clip r m = Arith.fixed.clip r m) ∧
+    (Arith.pre.exceeds r e = .panic .overflow ∨ Arith.pre.exceeds r e = Arith.fixed.exceeds r e) ∧
+    (Arith.pre.maskChecked r i = .panic .overflow ∨
+      Arith.pre.maskChecked r i = Arith.fixed.maskChecked r i) ∧
+    (Arith.pre.reverseChecked l i = .panic .overflow ∨
+      Arith.pre.reverseChecked l i = Arith.fixed.reverseChecked l i) ∧
+    (Arith.pre.elementsChecked ls = .panic .overflow ∨
+      Arith.pre.elementsChecked ls = Arith.fixed.elementsChecked ls) ∧
+    (Arith.pre.mulChecked a b = .panic .overflow ∨
+      Arith.pre.mulChecked a b = Arith.fixed.mulChecked a b) ∧
+    (tensorTryFrom Arith.pre shape n = .panic .overflow ∨
+      tensorTryFrom Arith.pre shape n = tensorTryFrom Arith.fixed shape n) ∧
+    (clipRangeShape Arith.pre shape ranges = .panic .overflow ∨
+      clipRangeShape Arith.pre shape ranges = clipRangeShape Arith.fixed shape ranges) ∧
+    (rangeExceedsBounds Arith.pre shape oranges = .panic .overflow ∨
+      rangeExceedsBounds Arith.pre shape oranges = rangeExceedsBounds Arith.fixed shape oranges) := by
+  obtain ⟨h1, h2, h3, h4, h5, h6⟩ := fixes_only_replace_overflow_panics r m e i l ls a b
+  exact ⟨h1, h2, h3, h4, h5, h6, tensorTryFrom_fix_conservative shape n,
+    clipRangeShape_fix_conservative shape ranges, rangeExceedsBounds_fix_conservative shape oranges⟩
+
 
 end EasyMl.C16
